@@ -213,7 +213,27 @@ def _is_int(n, v):
     return isinstance(n, ast.Constant) and type(n.value) is int and n.value == v
 
 
+def _has_arith(n):
+    return isinstance(n, ast.BinOp) and isinstance(n.op, (ast.Add, ast.Sub)) or (isinstance(n, ast.UnaryOp) and isinstance(n.op, ast.USub)
+                                                                              and not isinstance(n.operand, ast.Constant))
+
+
 def _cmp_atom(l, op, r):
+    # integer arithmetic around ONE term: `x - 4 < 0`, `0 > x - 4`, `x + 1 <= 5` are `x < 4`, `x < 4`, `x <= 4`
+    if isinstance(op, (ast.Lt, ast.Gt, ast.LtE, ast.GtE, ast.Eq, ast.NotEq)) and (_has_arith(l) or _has_arith(r)):
+        try:
+            from .affine import affine, NotAffine
+            try:
+                d = affine(l) - affine(r)
+            except NotAffine:
+                d = None
+            if d is not None and len(d.terms) == 1 and isinstance(d.const, int):
+                (t, k), = d.terms.items()
+                if k in (1, -1) and '@' not in t and '#' not in t and not t.startswith(('div(', 'mod(')):
+                    tn = ast.parse(t, mode='eval').body
+                    l, r = (tn, ast.Constant(value=-d.const)) if k == 1 else (ast.Constant(value=d.const), tn)
+        except (SyntaxError, ImportError):
+            pass
     # len(x) compared with 0 / 1: one atom `nonempty(x)` (a length is never negative)
     if _is_len(r) and not _is_len(l):
         flip = {ast.Lt: ast.Gt, ast.Gt: ast.Lt, ast.LtE: ast.GtE, ast.GtE: ast.LtE}
